@@ -162,6 +162,17 @@ func (w *workerProc) stop() {
 	}
 }
 
+func headTail(path string, n int) string {
+	b, err := os.ReadFile(path)
+	if err != nil {
+		return ""
+	}
+	if len(b) <= 2*n {
+		return string(b)
+	}
+	return string(b[:n]) + "\n[...]\n" + string(b[len(b)-n:])
+}
+
 func tail(path string, n int) string {
 	b, err := os.ReadFile(path)
 	if err != nil {
@@ -322,7 +333,7 @@ func (p *pool) run() {
 				r, err := w.do(t)
 				if err != nil {
 					// worker died: attribute to the execution named in its journal
-					c := crash{Task: *t, Stderr: tail(w.stderr, 6000)}
+					c := crash{Task: *t, Stderr: headTail(w.stderr, 3000)}
 					if jb, e := os.ReadFile(w.journal); e == nil {
 						var j struct {
 							Prefix []int `json:"prefix"`
